@@ -3,8 +3,11 @@ import numpy as np
 
 U = 2.0 ** -53          # unit round-off of float64
 
-SCALAR = {"float": float, "float64": np.float64, "0d": np.array}
-CONTAINERS = ("float", "float64", "0d", "1d", "2d")
+# One call per value: the value as a scalar or as the only element of an array.
+PER_VALUE = {"float": float, "float64": np.float64, "0d": np.array,
+             "1": lambda v: np.array([v]), "1x1": lambda v: np.array([[v]])}
+# One call on all values: "1d" (n,), "2d" (n, 1).
+CONTAINERS = tuple(PER_VALUE) + ("1d", "2d")
 
 
 class ShapeError(Exception):
@@ -33,10 +36,10 @@ def call(func, *args):
 
 
 def evaluate(func, container, values):
-    """func applied to every value: one call per value for the scalar
+    """func applied to every value: one call per value for the PER_VALUE
     containers, one call on the whole list for "1d" / "2d" (column)."""
-    if container in SCALAR:
-        return [call(func, SCALAR[container](v))[0] for v in values]
+    if container in PER_VALUE:
+        return [call(func, PER_VALUE[container](v))[0] for v in values]
     arg = np.array(values, dtype=float)
     if container == "2d":
         arg = arg.reshape(-1, 1)
